@@ -26,10 +26,10 @@ static void gmap(int t, double x, double y, double &nx, double &ny, bool &swapWH
 }
 static Pl applyT(int t, const Pl &p) { Pl q = p; for (int i = 0; i < 2; i++) { bool sw; gmap(t, p.x[i], p.y[i], q.x[i], q.y[i], sw); q.w[i] = sw ? p.h[i] : p.w[i]; q.h[i] = sw ? p.w[i] : p.h[i]; } return q; }
 // satisfaction is DEFINED by the library's own translation to VPSC constraints
-static bool sat(SepPair sp, const Pl &p) {
+static bool sat(SepPair sp, const Pl &p, double extraBdryGap = 0) {
     sp.src = 0; sp.tgt = 1;   // pairs taken out of a graph carry real node ids; src<tgt is preserved by construction
     ColaGraphRep cgr; for (int i = 0; i < 2; i++) { cgr.rs.push_back(new vpsc::Rectangle(p.x[i] - p.w[i] / 2, p.x[i] + p.w[i] / 2, p.y[i] - p.h[i] / 2, p.y[i] + p.h[i] / 2)); cgr.id2ix[i] = i; cgr.ix2id[i] = i; }
-    SepMatrix m(nullptr); bool ok = true;
+    SepMatrix m(nullptr); m.setExtraBdryGap(extraBdryGap); bool ok = true;
     for (int d = 0; d < 2; d++) {
         vpsc::Variables vs; for (int i = 0; i < 2; i++) vs.push_back(new vpsc::Variable(i, d == 0 ? p.x[i] : p.y[i]));
         vpsc::Constraint *c = sp.generateSeparationConstraint((vpsc::Dim)d, cgr, &m, vs);
@@ -114,8 +114,10 @@ int main(int argc, char **argv) {
     {
         double xs[3] = {0, 37.5, -12.25}, szs[2] = {10, 22.5};
         vector<vector<Avoid::Point>> routes = {{}, {Avoid::Point(5, 7.5)}, {Avoid::Point(5, 7.5), Avoid::Point(-3.125, 11)}};
-        for (int n = 1; n <= 3; n++) for (int emask = 0; emask < (1 << (n * (n - 1) / 2)); emask++) for (int rsel = 0; rsel < 3; rsel++) for (int c1 = -1; c1 < (int)(n >= 2 ? 8 * 2 * 2 : 0); c1 += (T ? 1 : 3)) for (int geom = 0; geom < 2; geom++) {
+        for (int n = 1; n <= 3; n++) for (int emask = 0; emask < (1 << (n * (n - 1) / 2)); emask++) for (int rsel = 0; rsel < 3; rsel++) for (int c1 = -1; c1 < (int)(n >= 2 ? 8 * 2 * 2 : 0); c1 += (T ? 1 : 3)) for (int geom = 0; geom < 2; geom++) for (int xg = 0; xg < 2; xg++) {
             if (emask == 0 && rsel > 0) continue;
+            if (xg && c1 < 0) continue;
+            double extra = xg ? 12.5 : 0;   // the SepMatrix's global extra boundary gap, folded into every written BDRY gap
             if (!ctx.next()) continue;
             Graph G; vector<Node_SP> ns;
             for (int i = 0; i < n; i++) ns.push_back(G.addNode(xs[(i + geom) % 3], xs[(2 * i + geom) % 3] * 0.5, szs[(i + geom) % 2], szs[i % 2]));
@@ -127,7 +129,8 @@ int main(int argc, char **argv) {
             if (c1 >= 0 && (c1 % 8) < 4 && ((c1 / 8) % 2) == 0 && ((c1 / 16) % 2) == 0 && (c1 % 5) == 1) { ctx.count("skipped_coincidence_constraint"); ctx.done_case(); continue; }
             if (c1 >= 0) { int di = c1 % 8, gi = (c1 / 8) % 2, si = (c1 / 16) % 2; double gap = (c1 % 5) * 1.5 - 1.5; G.getSepMatrix().addSep(ns[0]->id(), ns[1]->id(), gts[gi], DIRS[di], sts[si], gap); cdesc = mcx::fmt("%s gt=%d st=%d gap=%g", DN[di], gi, si, gap);
                              if (n == 3) G.getSepMatrix().addSep(ns[2]->id(), ns[0]->id(), gts[1 - gi], DIRS[(di + 3) % 8], sts[si], 2.0); }
-            string desc = mcx::fmt("n=%d edgemask=%d route#%d constraint=%s geom=%d", n, emask, rsel, cdesc.c_str(), geom);
+            G.getSepMatrix().setExtraBdryGap(extra);
+            string desc = mcx::fmt("n=%d edgemask=%d route#%d constraint=%s geom=%d extraBdryGap=%g", n, emask, rsel, cdesc.c_str(), geom, extra);
             ctx.sample(desc); ctx.count("states"); ctx.count("transitions", 3); ctx.count("evaluations");
             if (c1 >= 0 || rsel) ctx.count("nontrivial");
             try {
@@ -151,7 +154,7 @@ int main(int argc, char **argv) {
                     // constraints: semantically equal on the placement grid
                     if (c1 >= 0) { SepPair_SP s1 = G.getSepMatrix().checkSepPair(ns[0]->id(), ns[1]->id()), s2 = H->getSepMatrix().checkSepPair(g2h[ns[0]->id()], g2h[ns[1]->id()]);
                         if (!s1 || !s2) ctx.violation("tglf_constraint_lost", {}, desc, t1);
-                        else { bool f1 = s1->flippedRetrieval, f2 = s2->flippedRetrieval; (void)f1; (void)f2; for (auto &p : pl2) if (sat(*s1, p) != sat(*s2, p)) { ctx.violation("tglf_constraint_changed", {}, desc, t1 + " reread: " + t2); break; } } }
+                        else { bool f1 = s1->flippedRetrieval, f2 = s2->flippedRetrieval; (void)f1; (void)f2; for (auto &p : pl2) if (sat(*s1, p, extra) != sat(*s2, p, H->getSepMatrix().getExtraBdryGap())) { ctx.violation("tglf_constraint_changed", {}, desc, t1 + " reread: " + t2); break; } } }
                 }
             } catch (std::exception &ex) { ctx.violation("tglf_exception", {}, desc, ex.what()); }
             ctx.done_case();
